@@ -376,4 +376,54 @@ theorem inv_run {s : St} {acc tm : Bool} (h : Inv O C acc tm s) (evs : List Even
 
 end
 
+/-! ### the invariant along runs from the state before the accept -/
+
+theorem inv_of_run (o c : List Nat) (evs : List Event) :
+    ∃ acc tm, tm = evs.any isTerm ∧
+      Inv (o.map Ref.other) (c.map Ref.other) acc tm (run fixed (before o c) evs) := by
+  obtain ⟨a, _, h⟩ := inv_run (mine_not_mem_others o) (mine_not_mem_others c)
+    (inv_init (o.map Ref.other) (c.map Ref.other)) evs
+  exact ⟨a, _, by simp, h⟩
+
+theorem inv_of_accepted (o c : List Nat) (a : Accept) (evs : List Event) :
+    ∃ tm, tm = evs.any isTerm ∧
+      Inv (o.map Ref.other) (c.map Ref.other) true tm (run fixed (before o c) (.accept a :: evs)) := by
+  have hO := mine_not_mem_others o
+  have hC := mine_not_mem_others c
+  have h0 : InvListening (o.map Ref.other) (c.map Ref.other) (before o c) :=
+    ⟨rfl, rfl, rfl, rfl, rfl, rfl, rfl, rfl, rfl, rfl, rfl⟩
+  have h1 : Inv (o.map Ref.other) (c.map Ref.other) true false (step fixed (before o c) (.accept a)) := by
+    obtain ⟨acc, h⟩ := step_listening hO hC h0 (.accept a)
+    cases acc
+    · -- the accept always yields the descriptor: the `false` case of the invariant is not reachable
+      exfalso
+      cases h with
+      | listening h' =>
+        have : (step fixed (before o c) (.accept a)).phase = .listening := h'.ph
+        cases a <;> simp [step, before, init, handleHttp, St.exec, St.ended] at this
+      | done _ _ h' =>
+        have : (step fixed (before o c) (.accept a)).fd = {} := by simpa using h'.fd
+        cases a <;>
+          simp [step, before, init, handleHttp, St.exec, St.ended, apply, St.cell, St.setCell, St.need, St.listed,
+            fixed] at this
+    · simpa [isTerm] using h
+  obtain ⟨acc, hacc, h⟩ := inv_run hO hC h1 evs
+  have : acc = true := hacc rfl
+  subst this
+  exact ⟨_, Bool.or_false _, by simpa [run] using h⟩
+
+theorem settled_of_done {O C : List Ref} {acc tm : Bool} {s : St} (h : InvDone O C acc tm s) :
+    s.allSettled := by
+  intro ob
+  have hfd := h.fd
+  cases ob <;> simp only [St.settled, St.cell]
+  · cases acc <;> simp [hfd, gone1]
+  · rcases h.bs with e | e <;> simp [e, gone1]
+  · rcases h.conn with e | e <;> simp [e, gone1]
+  · rcases h.peer with e | e <;> simp [e, gone1]
+  · rcases h.rt with e | e <;> simp [e, gone1]
+
+theorem not_mine_mem (l : List Nat) : (l.map Ref.other).contains Ref.mine = false := by
+  simp
+
 end Cjet.Http
